@@ -594,3 +594,47 @@ func recvOne(c chan int) int {
 func recvOneBad(c chan int) int {
 	return <-c
 }
+
+// ---- 39. reader/writer lock: writing under the read lock; leaving with the lock held
+type rw struct {
+	mu sync.RWMutex
+	n  int
+}
+
+func (r *rw) goodRead() int {
+	r.mu.RLock()
+	defer r.mu.RUnlock()
+	return r.n
+}
+
+func (r *rw) badWrite() {
+	r.mu.RLock()
+	r.n = 1
+	r.mu.RUnlock()
+}
+
+func (m *mon) leak() {
+	m.mu.Lock()
+	if m.n > 5 {
+		m.n = -3
+		return
+	}
+	m.mu.Unlock()
+}
+
+func (m *mon) doubleUnlock() {
+	m.mu.Lock()
+	m.mu.Unlock()
+	m.mu.Unlock()
+}
+
+// ---- 40. a value read under the lock is stale after unlock / relock
+func (m *mon) staleBad() bool {
+	m.mu.Lock()
+	a := m.n
+	m.mu.Unlock()
+	m.mu.Lock()
+	b := m.n
+	m.mu.Unlock()
+	return a == b
+}
